@@ -249,7 +249,7 @@ fn d17_object(h: &HitObject) -> bool {
     })
 }
 
-/// D21: the input sets the mode after records that depend on it were read
+/// D22: the input sets the mode after records that depend on it were read
 /// (a `Mode` record of [General] after a [TimingPoints] / [HitObjects] record)
 pub fn mode_after_use(text: &str) -> bool {
     let mut sec = "";
@@ -356,7 +356,7 @@ pub fn oracle(text: &str, origin: &str, out: &mut Out) {
     for ((n, a), (_, b)) in f1.iter().zip(f2.iter()) {
         out.oracle_checks += 1;
         if a != b && carried(n, &m1) {
-            out.fail("", &desc, &format!("field {} is {} after decoding, {} after decode->encode->decode", n, a, b));
+            out.fail(c04::slashes_class(n, &m1), &desc, &format!("field {} is {} after decoding, {} after decode->encode->decode", n, a, b));
         }
     }
     // timing points
@@ -392,7 +392,7 @@ pub fn oracle(text: &str, origin: &str, out: &mut Out) {
         out.fail("", &desc, &format!("kiai timeline differs at t={}: {} vs {}", t, kiai_at(&m1, t), kiai_at(&m2, t)));
     }
     if let Some(t) = scroll_bad {
-        out.fail(if d19 { "D21" } else if d12 { "D12" } else { "" }, &desc, &format!("scroll-speed timeline differs at t={}: {} vs {}", t, scroll_at(&m1, t), scroll_at(&m2, t)));
+        out.fail(if d19 { "D22" } else if d12 { "D12" } else { "" }, &desc, &format!("scroll-speed timeline differs at t={}: {} vs {}", t, scroll_at(&m1, t), scroll_at(&m2, t)));
     }
     // hit objects.  An object whose encoded line is rejected on re-read is lost (C04's
     // business; known for the D2 class): it is reported and left out of the expectation.
@@ -434,7 +434,7 @@ pub fn oracle(text: &str, origin: &str, out: &mut Out) {
                 }
                 // a lost object earlier in the list can move a forced new-combo flag
                 let cls = if d19 && matches!(*n, "curve_path" | "curve_lengths" | "velocity") {
-                    "D21"
+                    "D22"
                 } else if path_item && d13 {
                     "D13"
                 } else if path_item && d17 {
